@@ -37,7 +37,7 @@ const watchdog = 10 * time.Second
 
 func TestC05_Post(t *testing.T) {
 	rec := evid.For("C05")
-	rec.SetRule("rapid-generated plans: 1..8 poster goroutines x 1..200 Posts each with generated yield points (Gosched / 20us sleep), optional rounds (after every 1..3 posts the poster waits until its handlers ran, so that many posts are the last one for a while) and nesting (handler posts again on the loop thread, handler spawns a goroutine that posts, two levels), while the loop goroutine (locked to its OS thread) runs a generated script of PollOne / RunOneFor(1ms) / blocking RunOne and arms and cancels a timer and a socket read (loop-thread accounting overlapping Post accounting); oracle: every handler id runs exactly once, on the loop thread (gettid), per-poster sequence numbers strictly increasing, a loop blocked in RunOne is woken by a later Post, the case finishes within a 10 s watchdog (deadlock = violation), Pending()==0 and Posted()==0 at quiescence, Posted() sampled continuously from a third goroutine stays within [returned Posts - finished handlers, started Posts - finished handlers + 1], and the -race build reports no data race; TestC05_AsyncHandshakeReturnsToLoop: the library's own caller of Post - websocket.AsyncHandshake against a minimal server (conforming or 403, 0..3 ms delay) while 0..3 unrelated goroutines post and the loop either blocks in RunOne or polls: callback once, on the loop thread, loop woken, State() right inside the callback, Posted()==0 and Pending()==0 afterwards; non-trivial = >=2 posters overlapping loop-thread arm/disarm activity, or a nested post, or (handshake test) a blocked loop or concurrent posters; distinct = hash of the plan. The OS scheduler, not the harness, picks the interleavings: the data-race half is timing-independent (happens-before analysis), the rest is statistical.")
+	rec.SetRule("rapid-generated plans: 1..8 poster goroutines x 1..200 Posts each with generated yield points (Gosched / 20us sleep), optional rounds (after every 1..3 posts the poster waits until its handlers ran, so that many posts are the last one for a while) and nesting (handler posts again on the loop thread, handler spawns a goroutine that posts, two levels), while the loop goroutine (locked to its OS thread) runs a generated script of PollOne / RunOneFor(1ms) / blocking RunOne and arms and cancels a timer and a socket read (loop-thread accounting overlapping Post accounting); oracle: every handler id runs exactly once, on the loop thread (gettid), per-poster sequence numbers strictly increasing, a loop blocked in RunOne is woken by a later Post, the case finishes within a 10 s watchdog (deadlock = violation), Pending()==0 and Posted()==0 at quiescence, inside every handler Posted()>=1 and Pending()>=Posted(), Posted() sampled continuously from a third goroutine stays within [returned Posts - finished handlers, started Posts - finished handlers + 1], and the -race build reports no data race; TestC05_AsyncHandshakeReturnsToLoop: the library's own caller of Post - websocket.AsyncHandshake against a minimal server (conforming or 403, 0..3 ms delay) while 0..3 unrelated goroutines post and the loop either blocks in RunOne or polls: callback once, on the loop thread, loop woken, State() right inside the callback, Posted()==0 and Pending()==0 afterwards; non-trivial = >=2 posters overlapping loop-thread arm/disarm activity, or a nested post, or (handshake test) a blocked loop or concurrent posters; distinct = hash of the plan. The OS scheduler, not the harness, picks the interleavings: the data-race half is timing-independent (happens-before analysis), the rest is statistical.")
 	vt.Check(t, 150, func(rt *rapid.T) {
 		np := rapid.IntRange(1, 8).Draw(rt, "posters")
 		plans := make([]posterPlan, np)
@@ -108,11 +108,18 @@ func TestC05_Post(t *testing.T) {
 			postersWG sync.WaitGroup
 			nestedWG  sync.WaitGroup
 		)
+		var accounting atomic.Value
 		var post func(poster, seq, level, mode int)
 		post = func(poster, seq, level, mode int) {
 			atomic.AddInt64(&expected, 1)
 			err := ioc.Post(func() {
 				tid := unix.Gettid()
+				// "leaves Pending() and Posted() exact": seen from inside a posted handler (on the loop goroutine, the only
+				// one that ever lowers either number) this handler is still counted by both, and every handler Posted()
+				// counts is also counted by Pending(), which is read second and can only have grown in between
+				if po, pe := ioc.Posted(), ioc.Pending(); po < 1 || pe < int64(po) {
+					accounting.CompareAndSwap(nil, fmt.Sprintf("inside the handler (poster %d, seq %d, level %d): Posted()=%d, Pending()=%d; a handler that is running or queued must be counted by both", poster, seq, level, po, pe))
+				}
 				mu.Lock()
 				k := [3]int{poster, seq, level}
 				execs[k] = append(execs[k], execRec{poster, seq, tid})
@@ -291,6 +298,9 @@ func TestC05_Post(t *testing.T) {
 		case <-loopDone:
 		case <-time.After(watchdog):
 			rt.Fatalf("watchdog: the loop did not pick up a handler posted while it was waiting (lost wake-up): %s", describe())
+		}
+		if v := accounting.Load(); v != nil {
+			rt.Fatalf("%s; %s", v.(string), describe())
 		}
 		if n := atomic.LoadInt64(&postErrs); n != 0 {
 			rt.Fatalf("%d Post calls returned an error", n)
